@@ -50,19 +50,20 @@ type vc08MsgIn struct {
 }
 
 type vc08Case struct {
-	Kind string      `json:"kind"`
-	Pin  *vc08PinIn  `json:"pin,omitempty"`
-	Msg  *vc08MsgIn  `json:"msg,omitempty"`
-	Opts *vc08OptsIn `json:"opts,omitempty"` // kind q: options through ToQuery / FromQuery
-	Raw  [][][]byte  `json:"raw,omitempty"`  // kind qraw: [key, value] pairs of an arbitrary query
-	Old  *vc08OptsIn `json:"old,omitempty"`  // kind qraw: receiver value FromQuery decodes onto
-	Num  int64       `json:"num,omitempty"`  // kinds st, pt, md: the status mask / pin type / pin mode
-	Text []byte      `json:"text,omitempty"` // kind straw: an arbitrary status string
-	Type string      `json:"type,omitempty"` // kinds mp, js: record type
-	Tape []int       `json:"tape,omitempty"` // kinds mp, js: choices the value is built from
-	Pin2 *vc08PinIn  `json:"pin2,omitempty"` // kind eq: the pin compared with Pin
-	Same bool        `json:"same,omitempty"` // kind eq: compare the value with itself (same pointer)
-	Fuzz *vc08Fuzz   `json:"fuzz,omitempty"` // kind fuzz: one recorded malformed input
+	Kind  string      `json:"kind"`
+	Pin   *vc08PinIn  `json:"pin,omitempty"`
+	Msg   *vc08MsgIn  `json:"msg,omitempty"`
+	Opts  *vc08OptsIn `json:"opts,omitempty"`  // kind q: options through ToQuery / FromQuery
+	Raw   [][][]byte  `json:"raw,omitempty"`   // kind qraw: [key, value] pairs of an arbitrary query
+	Old   *vc08OptsIn `json:"old,omitempty"`   // kind qraw: receiver value FromQuery decodes onto
+	Num   int64       `json:"num,omitempty"`   // kinds st, pt, md: the status mask / pin type / pin mode
+	Text  []byte      `json:"text,omitempty"`  // kind straw: an arbitrary status string
+	Type  string      `json:"type,omitempty"`  // kinds mp, js: record type
+	Tape  []int       `json:"tape,omitempty"`  // kinds mp, js, mpo, jso: choices the value is built from
+	Tape2 []int       `json:"tape2,omitempty"` // kinds mpo, jso: choices the destination's old content is built from
+	Pin2  *vc08PinIn  `json:"pin2,omitempty"`  // kind eq: the pin compared with Pin
+	Same  bool        `json:"same,omitempty"`  // kind eq: compare the value with itself (same pointer)
+	Fuzz  *vc08Fuzz   `json:"fuzz,omitempty"`  // kind fuzz: one recorded malformed input
 }
 
 // which universe a token's valid values come from
@@ -247,7 +248,6 @@ func vc08RunPbMsg(out *vOut, c vc08Case) {
 	out.count("pbmsg:" + obs[:9])
 	out.add(fmt.Sprintf("CPbMsg %s %s %s %s", old, term, obs, obs2), c, []string{obs, obs2}, true)
 }
-
 
 // ---------------------------------------------------------------- query form
 // outcomes of the trusted parsers on the texts of one case
@@ -858,7 +858,9 @@ func vc08RunWire(out *vOut, c vc08Case) {
 func hexString(b []byte) string { return fmt.Sprintf("%x", b) }
 
 func vc08Gen(r *vRand) vc08Case {
-	switch x := r.intn(100); {
+	switch x := r.intn(125); {
+	case x >= 100:
+		return vc08GenOnto(r)
 	case x < 20:
 		p := vc08GenPin(r, r.chance(35))
 		return vc08Case{Kind: "pb", Pin: &p}
@@ -904,6 +906,8 @@ func vc08Run(out *vOut, c vc08Case) {
 			vc08RunNames(out, c)
 		case "mp", "js":
 			vc08RunCodec(out, c)
+		case "mpo", "jso":
+			vc08RunOnto(out, c)
 		case "eq":
 			if c.Pin != nil {
 				vc08RunEq(out, c)
